@@ -193,49 +193,56 @@ def smWholeLines (lines : List Text) (from_ to_ : Nat) : List Ev :=
     let l := from_ + k
     if l ≤ lines.length then [Ev.chunk (some (lines.getD (l - 1) [])) ⟨l, 0, none⟩] else []).flatten
 
+/-- 1. close the active mapping -/
+def smStep1 (lines : List Text) (s : FullSt) (m : Mapping) : FullSt × List Ev :=
+  if s.active && s.line ≤ lines.length then
+    let ln := lines.getD (s.line - 1) []
+    if m.gl != s.line then
+      let ch := csub ln s.col USIZE_MAX
+      ({ s with line := s.line + 1, col := 0, active := false },
+        if ch.isEmpty then [] else [.chunk (some ch) ⟨s.line, s.col, s.orig⟩])
+    else
+      let ch := csub ln s.col m.gc
+      ({ s with col := m.gc, active := false },
+        if ch.isEmpty then [] else [.chunk (some ch) ⟨s.line, s.col, s.orig⟩])
+  else (s, [])
+
+/-- 2. rest of a partially emitted line -/
+def smStep2 (lines : List Text) (s1 : FullSt) (m : Mapping) : FullSt × List Ev :=
+  if m.gl > s1.line && s1.col > 0 then
+    ({ s1 with line := s1.line + 1, col := 0 },
+      if s1.line ≤ lines.length then
+        [.chunk (some (csub (lines.getD (s1.line - 1) []) s1.col USIZE_MAX)) ⟨s1.line, s1.col, none⟩]
+      else [])
+  else (s1, [])
+
+/-- 4. unmapped text before the mapping's column -/
+def smStep4 (lines : List Text) (s3 : FullSt) (m : Mapping) : FullSt × List Ev :=
+  if m.gc > s3.col then
+    ({ s3 with col := m.gc },
+      if s3.line ≤ lines.length then
+        [.chunk (some (csub (lines.getD (s3.line - 1) []) s3.col m.gc)) ⟨s3.line, s3.col, none⟩]
+      else [])
+  else (s3, [])
+
+/-- 5. activate -/
+def smStep5 (finalLine finalCol : Nat) (s4 : FullSt) (m : Mapping) : FullSt :=
+  match m.orig with
+  | some o =>
+    if m.gl < finalLine || (m.gl == finalLine && m.gc < finalCol) then { s4 with active := true, orig := some o } else s4
+  | none => s4
+
 def smFullStep (lines : List Text) (finalLine finalCol : Nat) (s : FullSt) (m : Mapping) : FullSt × List Ev :=
   -- fix F11: ignore mappings that go backwards
   if m.gl < s.line || (m.gl == s.line && m.gc < s.col) then (s, [])
   else
-  -- 1. close the active mapping
-  let (s1, o1) : FullSt × List Ev :=
-    if s.active && s.line ≤ lines.length then
-      let ln := lines.getD (s.line - 1) []
-      if m.gl != s.line then
-        let ch := csub ln s.col USIZE_MAX
-        ({ s with line := s.line + 1, col := 0, active := false },
-          if ch.isEmpty then [] else [.chunk (some ch) ⟨s.line, s.col, s.orig⟩])
-      else
-        let ch := csub ln s.col m.gc
-        ({ s with col := m.gc, active := false },
-          if ch.isEmpty then [] else [.chunk (some ch) ⟨s.line, s.col, s.orig⟩])
-    else (s, [])
-  -- 2. rest of a partially emitted line
-  let (s2, o2) : FullSt × List Ev :=
-    if m.gl > s1.line && s1.col > 0 then
-      ({ s1 with line := s1.line + 1, col := 0 },
-        if s1.line ≤ lines.length then
-          [.chunk (some (csub (lines.getD (s1.line - 1) []) s1.col USIZE_MAX)) ⟨s1.line, s1.col, none⟩]
-        else [])
-    else (s1, [])
+  let r1 := smStep1 lines s m
+  let r2 := smStep2 lines r1.1 m
   -- 3. whole unmapped lines
-  let o3 := smWholeLines lines s2.line m.gl
-  let s3 : FullSt := { s2 with line := max s2.line m.gl }
-  -- 4. unmapped text before the mapping's column
-  let (s4, o4) : FullSt × List Ev :=
-    if m.gc > s3.col then
-      ({ s3 with col := m.gc },
-        if s3.line ≤ lines.length then
-          [.chunk (some (csub (lines.getD (s3.line - 1) []) s3.col m.gc)) ⟨s3.line, s3.col, none⟩]
-        else [])
-    else (s3, [])
-  -- 5. activate
-  let s5 : FullSt :=
-    match m.orig with
-    | some o =>
-      if m.gl < finalLine || (m.gl == finalLine && m.gc < finalCol) then { s4 with active := true, orig := some o } else s4
-    | none => s4
-  (s5, o1 ++ o2 ++ o3 ++ o4)
+  let o3 := smWholeLines lines r2.1.line m.gl
+  let s3 : FullSt := { r2.1 with line := max r2.1.line m.gl }
+  let r4 := smStep4 lines s3 m
+  (smStep5 finalLine finalCol r4.1 m, r1.2 ++ r2.2 ++ o3 ++ r4.2)
 
 def smFullGo (lines : List Text) (fl fc : Nat) : FullSt → List Mapping → List Ev
   | _, [] => []
